@@ -31,7 +31,8 @@ RULE = (
 )
 ASSUMPTIONS = [
     "ideal network = premise of the property; animals are placed >= 5 radii apart (well separated) so single-linkage clustering inside the ideal network recovers the animals",
-    "geometry obeys the resolution rule of DESIGN C02/C03: disc radius >= 3 input px, node spacing >= max(3.5 PAF cells, 2r+4), image max side >= 8.5 animal radii so that the default max_edge_length_ratio does not penalise skeleton edges",
+    "geometry obeys the resolution rule of DESIGN C02/C03: disc radius >= 3 input px, node spacing >= max(3.5 PAF cells, 2r+4), image max side >= 8.5 animal radii so that the default max_edge_length_ratio does not penalise skeleton edges; half of the runs use the portrait form of the scene (x and y exchanged: tall frame, short side ~2.6 radii)",
+    "'long' family: 3-node chains (three listings) whose nodes lie along a narrow frame with a node spacing of 1.25x the stride-padded short side of the network input (an edge longer than the frame is wide but at most half its long side), 1-2 animals, both orientations, every configuration",
     "quick: all skeletons n<=3 in all listings, all 64 rooted trees on 4 nodes with one listing each (rotating), 4 pairwise-covering configs, A<=2 (3 for n<=3); thorough: all listings for n<=4, n=5,6 with canonical listing + reverse on a deterministic subset of trees, 16 configs, A<=3 (n<=4), 5 animals for a sub-grid",
 ]
 
@@ -86,19 +87,48 @@ def groups_of(pts, edges):
     return out
 
 
+def long_geometry(n, cfg, n_animals_max):
+    """'long' family: chain animals whose nodes lie on a line along the LONG side of a narrow frame, consecutive nodes
+    farther apart than the (stride-padded) short side of the network input - an edge longer than the frame is wide."""
+    scale, ps = cfg["scale"], cfg["paf_stride"]
+    r = max(3.0, 3.0 / scale)
+    short = int(math.ceil(2 * (r + 7)))
+    short += (-short) % 2
+    short_in = -(-int(short * scale) // 16) * 16  # what the network sees after scaling and padding to max_stride 16
+    d = max(1.25 * short_in, 3.6 * ps + 2.0) / scale  # node spacing in original pixels
+    gap = 1.9 * d  # between the last node of one animal and the first node of the next
+    per = (n - 1) * d
+    long_side = int(math.ceil(2 * (r + 7) + n_animals_max * per + (n_animals_max - 1) * gap))
+    long_side += (-long_side) % 2
+    return r, d, gap, short, long_side
+
+
+def long_animal(a, n, r, d, gap, short):
+    y0 = r + 7 + a * ((n - 1) * d + gap)
+    return np.array([[gp(short / 2.0 - 1 + (k % 2), 2 * k + a), gp(y0 + k * d, 2 * k + 1 + a)] for k in range(n)], dtype=np.float64)
+
+
 def build_frames(n, edges, cfg, n_animals_max):
-    r, R = geometry(n, cfg)
-    step = 5.0 * R + 2 * r
-    W = int(math.ceil(max(8.5 * R, 2 * (R + r + 6) + step * (n_animals_max - 1))))
-    H = int(math.ceil(2 * (R + r + 6) + 0.6 * R))
-    W += (-W) % 2
-    H += (-H) % 2
+    if cfg.get("long"):
+        r, d, gap, W, H = long_geometry(n, cfg, n_animals_max)  # built as a portrait frame; cfg["portrait"] False transposes it
+        R = d
+    else:
+        r, R = geometry(n, cfg)
+        step = 5.0 * R + 2 * r
+        W = int(math.ceil(max(8.5 * R, 2 * (R + r + 6) + step * (n_animals_max - 1))))
+        H = int(math.ceil(2 * (R + r + 6) + 0.6 * R))
+        W += (-W) % 2
+        H += (-H) % 2
+    flip = bool(cfg.get("portrait")) != bool(cfg.get("long"))  # exchange x and y (the long family is built tall)
     frames, truth = [], []
     for na in range(1, n_animals_max + 1):
         for mask in range(2**n):
             animals = []
             for a in range(na):
-                pts = animal(R + r + 6 + step * a, R + r + 6 + (0.5 * R if a % 2 else 0.0), R, n, a)
+                if cfg.get("long"):
+                    pts = long_animal(a, n, r, d, gap, W)
+                else:
+                    pts = animal(R + r + 6 + step * a, R + r + 6 + (0.5 * R if a % 2 else 0.0), R, n, a)
                 if a == 0:
                     for k in range(n):
                         if not (mask >> k) & 1:
@@ -106,11 +136,15 @@ def build_frames(n, edges, cfg, n_animals_max):
                 animals.append(pts)
             if na > 1 and mask == 0:
                 continue  # animal 0 fully invisible == the (na-1)-animal frame shifted; keep one all-invisible case (na == 1)
-            frames.append({"image": S.render(H, W, animals, radius=r), "instances": [p for p in animals if not np.isnan(p).all()] or []})
+            if flip:  # the same scene with x and y exchanged
+                animals = [np.ascontiguousarray(p[:, ::-1]) for p in animals]
+            frames.append({"image": S.render(*((W, H) if flip else (H, W)), animals, radius=r), "instances": [p for p in animals if not np.isnan(p).all()] or []})
             truth.append([g for p in animals for g in groups_of(p, edges)])
         if na == 1:
-            frames.insert(1, {"image": S.render(H, W, [], radius=r), "instances": []})
+            frames.insert(1, {"image": S.render(*((W, H) if flip else (H, W)), [], radius=r), "instances": []})
             truth.insert(1, [])
+    if flip:
+        H, W = W, H
     return frames, truth, (H, W, r, R)
 
 
@@ -149,7 +183,7 @@ def execute(case):
         frames, truth, (H, W, r, R) = build_frames(n, edges, cfg, case["animals"])
         slp = S.write_labels(tmp, frames, sk, name="b", embed=True)
         path = slp if cfg["provider"] == "LabelsReader" else S.png_video_paths(tmp, "b")
-        link = 2.0 * R + 1.0
+        link = 1.3 * R if cfg.get("long") else 2.0 * R + 1.0  # long family: R is the node spacing; animals are 1.9 spacings apart
 
         def mk():
             return I.bottomup_predictor(
@@ -244,7 +278,16 @@ def cases(tier, seed):
                 animals = 2
             if tier == "thorough" and n == 3 and ci == 0 and si % 6 == 0:
                 animals = 5
-            out.append({"n": n, "edges": edges, "cfg": dict(cfg, provider=prov), "animals": animals, "labels_too": (si + ci) % 3 == 0})
+            # every second (skeleton listing, configuration) pair is run on the portrait form of its scene (tall frame whose
+            # width is smaller than the longest skeleton edge / max_edge_length_ratio, height far larger)
+            portrait = (si // 2 + ci) % 2 == 1
+            out.append({"n": n, "edges": edges, "cfg": dict(cfg, provider=prov, portrait=portrait), "animals": animals, "labels_too": (si + ci) % 3 == 0})
+    # 'long' family: chains of 3 (and, two animals per frame, of 2) nodes laid out along a narrow frame, node spacing larger
+    # than the frame's short side; both orientations x every configuration
+    for n, edges in ((3, [[0, 1], [1, 2]]), (3, [[1, 2], [0, 1]]), (3, [[1, 0], [1, 2]])):
+        for ci, cfg in enumerate(cfgs):
+            for portrait in (True, False):
+                out.append({"n": n, "edges": edges, "cfg": dict(cfg, provider="VideoReader" if portrait else "LabelsReader", portrait=portrait, long=True), "animals": 2, "labels_too": False})
     return out
 
 
